@@ -511,8 +511,10 @@ func constComparisons(p *Prog) map[string]map[string]int {
 				if !ok {
 					return true
 				}
+				// ordering comparisons only: `<` versus `<=` at a threshold is what moves a boundary; equality tests are
+				// insensitive to such slips and come and go with switch / table refactorings
 				switch be.Op {
-				case token.LSS, token.LEQ, token.GTR, token.GEQ, token.EQL, token.NEQ:
+				case token.LSS, token.LEQ, token.GTR, token.GEQ:
 				default:
 					return true
 				}
@@ -770,7 +772,7 @@ func ruleWire(p *Prog, r *RuleResult) {
 		for _, e := range wk.Entries {
 			n++
 			nk++
-			if m[[2]string{e.Op, e.Value}] < e.Count {
+			if m[[2]string{e.Op, e.Value}] < 1 {
 				okAll = false
 				r.fail(fmt.Sprintf("kernel.%s#%s.%s", wk.Fn, e.Op, e.Value), p.Pos(f.Pos()), fmt.Sprintf("%s uses the literal %s in operation %s %d time(s); bitstream format 6 has %d: a shift, mask or multiplier of a codec kernel that the decoder runs was changed (encoder and decoder drift together, reference streams decode differently)", wk.Fn, e.Value, e.Op, m[[2]string{e.Op, e.Value}], e.Count))
 			}
@@ -807,7 +809,9 @@ func ruleWire(p *Prog, r *RuleResult) {
 			n++
 			key := fmt.Sprintf("census.%s#%s.%s", wcs.Anchor, e.Op, e.Value)
 			got := m[[2]string{e.Op, e.Value}]
-			if got >= e.Count {
+			// presence, not multiplicity: a clean-up may merge two identical uses into one; a changed constant
+			// disappears altogether
+			if got >= 1 {
 				r.ok(fmt.Sprintf("%s x%d", key, got), p.Pos(f.Pos()))
 			} else {
 				r.fail(key, p.Pos(f.Pos()), fmt.Sprintf("%s uses the constant %s in operation %s %d time(s); bitstream format 6 has %d: a field width, shift, multiplier or seed of the header / block framing / hash changed", wcs.Anchor, e.Value, e.Op, got, e.Count))
